@@ -97,6 +97,7 @@ type Frame struct {
 	entry    *State
 	contract *Contract
 	loopOrd  int
+	loopIdx  map[ast.Node]int
 	loops    []*loopCtx
 	inlined  bool
 	results  []types.Object // named result objects
